@@ -30,7 +30,7 @@ RULE = ("(base,left,right) built per key from the 13 change patterns (unchanged,
         "non-trivial = at least one key changed on the right")
 ASSUMPTIONS = ["the handler resolves a divergent delete only to 'deleted' (what the differ route assumes; visible as delete_resolves_to_delete in the theorem)"]
 REQUIRED_TAGS = ["op0", "op1", "op2", "op3", "op4", "op5", "op6", "op7", "op8", "op9", "op10", "op11", "op12", "callback", "multi-chunk",
-                 "height2", "empty-base", "empty-left", "empty-right", "resolved-delete", "block-add", "block-delete"]
+                 "height2", "empty-base", "empty-left", "empty-right", "resolved-delete", "block-add", "block-delete", "range-patch", "point-patch", "range-and-point-patches"]
 HARNESS_TIMEOUT = 900
 
 
@@ -121,7 +121,7 @@ def gen_cases(rng, tier):
     cases = []
     for _ in range(400 if quick else 8000):
         cases.append(gen_one(rng))
-    for _ in range(10 if quick else 300):
+    for _ in range(16 if quick else 300):
         cases.append(gen_one(rng, big=True))
     return cases
 
@@ -143,12 +143,14 @@ def coq_case(case, out):
     inp = "{| i_base := %s; i_left := %s; i_right := %s; i_mode := %d |}" % (
         _dict(case["base"]), _dict(case["left"]), _dict(case["right"]), case["mode"])
     if o is None or out.get("err"):
-        return "(%s, {| d_ops := [(0, (99, None, None)); (0, (99, None, None))]; d_calls := []; p_res := []; p_calls := []; p_canon := false |})" % inp
+        return "(%s, {| d_ops := [(0, (99, None, None)); (0, (99, None, None))]; d_calls := []; p_res := []; p_calls := []; p_canon := false; p_stream := [] |})" % inp
     dops = cq_list("(%d, (%d, %s, %s))" % (x["k"], x["op"], _opt(x.get("r")), _opt(x.get("m"))) for x in o["dops"])
     dcalls = cq_list(_triple(c) for c in o["dcalls"])
     pcalls = cq_list("(%d, %s)" % (c["k"], _triple(c)) for c in o["pcalls"])
-    return "(%s, {| d_ops := %s; d_calls := %s; p_res := %s; p_calls := %s; p_canon := %s |})" % (
-        inp, dops, dcalls, _dict(o["pres"]), pcalls, cq_bool(o["pcanon"]))
+    stream = cq_list(("(PPoint %d %s)" % (p["k"], _opt(p.get("to")))) if p["lvl"] == 0 else
+                     ("(PRange %s %d %s)" % (_opt(p.get("lo")), p["k"], _dict(p.get("c") or []))) for p in o["stream"])
+    return "(%s, {| d_ops := %s; d_calls := %s; p_res := %s; p_calls := %s; p_canon := %s; p_stream := %s |})" % (
+        inp, dops, dcalls, _dict(o["pres"]), pcalls, cq_bool(o["pcanon"]), stream)
 
 
 def classify(case, out):
@@ -177,6 +179,14 @@ def classify(case, out):
             t.append("block-delete")
     if not o["pcanon"]:
         t.append("non-canonical-result")
+    if any(p["lvl"] > 0 for p in o["stream"]):
+        t.append("range-patch")
+    if any(p["lvl"] > 0 and not p.get("c") for p in o["stream"]):
+        t.append("range-patch-removed-chunk")
+    if any(p["lvl"] > 0 for p in o["stream"]) and any(p["lvl"] == 0 for p in o["stream"]):
+        t.append("range-and-point-patches")
+    if any(p["lvl"] == 0 for p in o["stream"]):
+        t.append("point-patch")
     return list(dict.fromkeys(t))
 
 
